@@ -89,6 +89,7 @@ struct Rig {
   // state of the dynamic nodes
   NodeToken dyn_dir, dyn_parent, rm_target; int dyn_seq = 0;
   int stale_feeds = 0;
+  bool settle = false;                  // socket front ends: after a segment keep running passes until no more output arrives
   std::string rig_err;                  // violation seen by the rig itself (first one)
 
   Rig() : clk(1000000) {}
@@ -98,6 +99,9 @@ struct Rig {
   std::string &out() { return fe == FE_FAKE ? fake.out : sock_out; }
 
   void init() {
+    // A peer that disconnects while output is pending makes write() raise SIGPIPE.  Its disposition is the
+    // application's business (tbox::main installs a handler for it); the harness ignores it like such an application.
+    static bool once = (::signal(SIGPIPE, SIG_IGN), true); (void)once;
     loop.reset(tbox::event::Loop::New());
     term.reset(new Terminal(loop.get()));
   }
@@ -169,6 +173,9 @@ struct Rig {
       tx_dead = true;
     }
     pump(passes);
+    // Many tiny writes (one per echoed character) can fill the socket's send queue by per-packet overhead alone; the
+    // service then buffers and flushes on later passes.  An oracle that reads "the reply to this segment" waits for it.
+    if (settle) for (int i = 0; i < 200 && !peer_closed; ++i) { size_t b = sock_out.size(); pump(1); if (sock_out.size() == b) break; }
   }
 
   // close modes: 0 client closes, server notices; 1 service stop() with the connection still open; 2 client half-close
